@@ -53,7 +53,8 @@ class EngineDCheck(dst.Check):
                     visited=r['visited'], events=r['events'], nreports=len(r['reports']),
                     complete_paths=len(r['complete_paths']), unsupported=r['unsupported'],
                     criticals=r['criticals'][:3], wall=r.get('wall'),
-                    empty_program=r.get('empty_program', False), stalled=r.get('stalled', False), looping=r.get('looping', False))
+                    empty_program=r.get('empty_program', False), stalled=r.get('stalled', False), looping=r.get('looping', False),
+                    stopped_at_error=r.get('stopped_at_error', False))
 
     def shrink(self, plan):
         return mcdgen.shrink(plan)
@@ -75,10 +76,23 @@ class EngineDCheck(dst.Check):
             return set(op[0] for a in plan['actors'] for op in a['ops'])
 
         def cv_reversible_race(plan, cls, msg):
-            # CondvarTransition::reversible_race / is_cv_wait_fireable_without_transition (sdpor, odpor only)
-            return ('_sdpor_' in cls or '_odpor_' in cls or cls.startswith('crash_cv')) and \
-                ('condvar wait is always preceeded' in msg or 'lock_handle > 0' in msg) and \
-                bool(ops(plan) & {'cvwait', 'cvwait_for'})
+            # CondvarTransition::reversible_race / is_cv_wait_fireable_without_transition (sdpor, odpor only): aborts,
+            # and races between a notification and the two steps of a wait declared not reversible (missed executions)
+            o = ops(plan)
+            if not (o & {'cvwait', 'cvwait_for'}):
+                return False
+            if ('_sdpor_' in cls or '_odpor_' in cls or cls.startswith('crash_cv')) and \
+                    ('condvar wait is always preceeded' in msg or 'lock_handle > 0' in msg):
+                return True
+            return cls.startswith('miss_') and ('_sdpor' in cls or '_odpor' in cls) and bool(o & {'notify_one', 'notify_all'})
+
+        def befs_after_deadlock(plan, cls, msg):
+            # BeFSExplorer computes the races of a leaf only when every actor has terminated
+            return (cls.startswith('miss_') and '_befs' in cls and 'exit 2' in msg)
+
+        def befs_uniform_multivalued(plan, cls, msg):
+            return (cls.startswith('miss_') and cls.endswith('_befs_uniform') and
+                    bool(ops(plan) & {'mc_random', 'wait_any', 'test_any'}))
 
         def join_after_sleep(plan, cls, msg):
             return 'Unexpected transition type ACTOR_SLEEP' in msg and {'join', 'sleep'} <= ops(plan)
@@ -86,8 +100,10 @@ class EngineDCheck(dst.Check):
         def initial_deadlock(plan, cls, msg):
             return cls == 'miss_initial_deadlock'
 
-        def odpor_loop_multivalued(plan, cls, msg):
-            return cls in ('loop_odpor', 'hang_mc_random') and 'odpor' in msg and \
+        def odpor_multivalued(plan, cls, msg):
+            # odpor with transitions that have several values (MC_random, waitany, testany): loops, crashes, misses
+            return (cls in ('loop_odpor', 'hang_mc_random', 'odpor_count', 'missed_odpor') or cls.startswith('abort_odpor_') or
+                    (cls.startswith('miss_') and '_odpor' in cls)) and 'odpor' in msg and \
                 bool(ops(plan) & {'mc_random', 'wait_any', 'test_any'})
 
         def udpor_incomplete(plan, cls, msg):
@@ -115,9 +131,10 @@ class EngineDCheck(dst.Check):
             return (cls.startswith('hang_mq') or cls.startswith('decode_blocked_MESS')) and \
                 bool(ops(plan) & {'mput', 'mget', 'mput_async', 'mget_async'})
         return dict(cv_reversible_race=cv_reversible_race, join_after_sleep=join_after_sleep,
-                    initial_deadlock=initial_deadlock, odpor_loop_multivalued=odpor_loop_multivalued,
+                    initial_deadlock=initial_deadlock, odpor_multivalued=odpor_multivalued,
                     udpor_incomplete=udpor_incomplete, udpor_exit_status=udpor_exit_status, maxerr_paths=maxerr_paths,
-                    message_queue=message_queue, orphan_async_comm=orphan_async_comm)
+                    message_queue=message_queue, orphan_async_comm=orphan_async_comm,
+                    befs_after_deadlock=befs_after_deadlock, befs_uniform_multivalued=befs_uniform_multivalued)
 
     def signature(self, plan, res):
         return res.get('hash', '')
@@ -134,6 +151,8 @@ class EngineDCheck(dst.Check):
                 st['mc_cut_by_cap'] += 1
             if s['unsupported']:
                 st['mc_unsupported'] += 1
+            if s.get('stopped_at_error'):
+                st['mc_stopped_at_first_error'] = st.get('mc_stopped_at_first_error', 0) + 1
             st['mc_states'] += s['states'] or 0
             st['mc_traces'] += s['traces'] or 0
             st['mc_traces_' + red] = st.get('mc_traces_' + red, 0) + (s['traces'] or 0)
@@ -163,11 +182,17 @@ def loop_msg(r):
                                                        len(cnt)))
 
 
+def abort_msg(r):
+    """the message of the assertion / xbt_die that killed the checker: the last error line that is not part of a dump"""
+    c = [x for x in r['criticals'] if not x.startswith('  ') and not x.startswith('Event ')]
+    return (c or r['criticals'])[-1]
+
+
 def abort_class(r):
     """class of an exploration that died: reduction + slug of the first error message (so that shrinking stays on the
     same failure)"""
     if r['criticals']:
-        return 'abort_%s_%s' % (r['red'], slug(r['criticals'][0]))
+        return 'abort_%s_%s' % (r['red'], slug(abort_msg(r)))
     if r['rc'] is not None and r['rc'] < 0:
         return 'abort_%s_signal%d' % (r['red'], -r['rc'])
     return 'abort_%s_rc%s' % (r['red'], r['rc'])
